@@ -44,7 +44,7 @@ ASSUMPTIONS = [
     "dropping a synthetic copy that was never sent is a no-op in the code and is not counted as 'dropped'",
 ]
 MUST_REACH = {"scenarios": 500, "hook_exceptions_raised": 100, "claims_observed": 100, "followups_delivered": 500,
-              "ownership_sequences": 300, "illegal_reuse_rejected": 100, "subscriber_scenarios": 20, "rlv_scenarios": 6,
+              "ownership_sequences": 300, "illegal_reuse_rejected": 100, "subscriber_scenarios": 20, "predicate_scenarios": 8, "rlv_scenarios": 6,
               "packet_hook_scenarios": 6, "object_hook_scenarios": 2}
 
 _ser = UDPMessageSerializer()
@@ -436,6 +436,55 @@ def check_packet_hook(ctx, behaviours, direction_in):
         h.close()
 
 
+def check_predicate(ctx, level, direction_in, reliable, pred_exc):
+    """A subscription whose predicate raises (e.g. a wait_for() predicate indexing a block the message does not have)
+    must not stop the subscribers after it - same level (named and wildcard) or the other level - nor anything else."""
+    h = Harness(1)
+    try:
+        target = h.session.message_handler if level == "session" else h.region.message_handler
+        other = h.region.message_handler if level == "session" else h.session.message_handler
+        name = "ChatFromSimulator" if direction_in else "ChatFromViewer"
+        mode = {"on": True}
+
+        def pred(msg):
+            if mode["on"]:
+                raise pred_exc("scripted predicate failure")
+            return False
+
+        same_named, same_wild, other_named = [], [], []
+        wit = {"hook": f"{level}.message_handler predicate", "behaviour": "predicate raises " + pred_exc.__name__,
+               "direction": "in" if direction_in else "out", "reliable": reliable}
+        with target.subscribe_async((name,), predicate=pred, take=False):
+            target.subscribe(name, lambda m: same_named.append(m.name) and None)
+            target.subscribe("*", lambda m: same_wild.append(m.name) and None)
+            other.subscribe(name, lambda m: other_named.append(m.name) and None)
+            text, data = h.chat(direction_in, reliable)
+            exc = h.feed(direction_in, data)
+            ctx.ev()
+            ctx.count("scenarios")
+            ctx.count("predicate_scenarios")
+            ctx.count("hook_exceptions_raised")
+            if exc is not None:
+                ctx.violation("exception-escaped-proxy:predicate", "an exception left handle_proxied_packet", dict(wit, exc=repr(exc)[:300]))
+            n = h.emissions_with_text(text)
+            if n != 1:
+                ctx.violation("emitted-more-than-once" if n > 1 else "unclaimed-message-lost",
+                              "a message nobody claimed was not put on the wire exactly once", dict(wit, count=n))
+            for label, calls in (("same-level", same_named), ("same-level-wildcard", same_wild), ("other-level", other_named)):
+                if len(calls) != 1:
+                    ctx.violation("later-subscriber-skipped:" + label, "a failing subscription predicate stopped another subscriber",
+                                  dict(wit, skipped=label, calls=len(calls)))
+            if len([e for e in h.log if e[1] == "lludp"]) != 1:
+                ctx.violation("later-addon-hook-skipped", "a failing predicate stopped the addon hook", dict(wit))
+            if h.logger.logged.count(text) < 1:
+                ctx.violation("bookkeeping-skipped:predicate", "the message logger was not reached", dict(wit))
+            mode["on"] = False
+            followup(ctx, h, wit)
+        ctx.nontrivial(("predicate", level, direction_in, reliable, pred_exc.__name__))
+    finally:
+        h.close()
+
+
 def check_subscriber(ctx, level, which, behaviour, direction_in, reliable):
     """Session- or region-level message_handler subscribers, named or wildcard."""
     h = Harness(1)
@@ -701,6 +750,11 @@ def run(ctx):
                 for d in (False, True):
                     for rel in (False, True):
                         others.append(("sub", level, which, beh, d, rel))
+    for level in ("session", "region"):
+        for d in (False, True):
+            for rel in (False, True):
+                for pe in (KeyError, ValueError):
+                    others.append(("pred", level, d, rel, pe))
     for combo in itertools.product(["none", "true", "raise"], repeat=2):
         for n in (1, 2, 3):
             others.append(("rlv", combo, n))
@@ -713,6 +767,8 @@ def run(ctx):
             check_packet_hook(ctx, o[1], o[2])
         elif o[0] == "sub":
             check_subscriber(ctx, *o[1:])
+        elif o[0] == "pred":
+            check_predicate(ctx, *o[1:])
         elif o[0] == "rlv":
             check_rlv(ctx, o[1], o[2])
         else:
